@@ -8,9 +8,13 @@ export GOFLAGS=-mod=mod GOPROXY=off GOSUMDB=off GOTOOLCHAIN=local
 tier=${1:-quick}; shift || true
 props=${@:-$(python3 -c "import json; print(' '.join(c['property_id'] for c in json.load(open('/verif/MANIFEST.json'))['checks']))")}
 V=/verif; W=$V/.work/cover; rm -rf $W; mkdir -p $W/data $W/evidence
-cd $V/harness || exit 2
-cat /repo/go.sum third_party/bgopkg/go.sum 2>/dev/null | sort -u > go.sum
-go build -cover -coverpkg=github.com/cloudwego/gopkg/... -tags verif -o $W/vcheck . || exit 2
+# `go build -cover` instruments packages of the main module only, so the harness is built as a package of a scratch
+# copy of /repo's module (language level raised to 1.21 in the copy for the harness' own use of unsafe.SliceData)
+S=$(mktemp -d /tmp/verif-cover.XXXXXX); trap 'rm -rf "$S"' EXIT
+rsync -a --exclude .git /repo/ $S/ && mkdir -p $S/zzharness && cp $V/harness/*.go $S/zzharness/ && cp -r $V/harness/third_party $S/zz_third_party || exit 2
+cd $S && sed -i 's/^go 1\.18$/go 1.21/' go.mod && echo 'replace github.com/bytedance/gopkg => ./zz_third_party/bgopkg' >> go.mod
+cat /repo/go.sum $V/harness/third_party/bgopkg/go.sum 2>/dev/null | sort -u > go.sum
+go build -cover -coverpkg=./... -tags verif -o $W/vcheck ./zzharness || exit 2
 for p in $props; do
   GOCOVERDIR=$W/data VERIF_EVIDENCE_DIR=$W/evidence $W/vcheck $p --tier $tier 2>&1 | tail -1
 done
